@@ -28,8 +28,11 @@ fn compare_layouts(key: Option<usize>, lay: &Layout, built: &Built, out: &mut Ve
         }
     }
     if let (Some(md), Some(rd)) = (built.model_debug.get(&key), built.real_debug.get(&key)) {
+        // the number inside a placeholder (`unnamed_system_<n>`) is the crate's internal id; the
+        // property only asks for *a* placeholder, so the texts are compared up to that number
+        // (that distinct unnamed systems get distinct placeholders is an implementation-side oracle)
         match rd {
-            Ok(t) if t == md => {}
+            Ok(t) if blank_placeholders(t) == blank_placeholders(md) => {}
             Ok(t) => out.push(("debug".into(), format!("builder {:?}: Debug text differs: real {:?} model {:?}", key, t, md))),
             Err(e) => out.push(("debug".into(), format!("builder {:?}: Debug panicked ({}) but the model prints {:?}", key, e, md))),
         }
@@ -37,6 +40,19 @@ fn compare_layouts(key: Option<usize>, lay: &Layout, built: &Built, out: &mut Ve
     for (k, l) in &lay.inner {
         compare_layouts(Some(*k), l, built, out);
     }
+}
+/// every `unnamed_system_<digits>` token with its digits removed
+pub fn blank_placeholders(t: &str) -> String {
+    let mut out = String::new();
+    let mut rest = t;
+    while let Some(i) = rest.find("unnamed_system_") {
+        let end = i + "unnamed_system_".len();
+        out.push_str(&rest[..end]);
+        rest = rest[end..].trim_start_matches(|c: char| c.is_ascii_digit());
+        out.push('#');
+    }
+    out.push_str(rest);
+    out
 }
 fn oracles_rec(key: Option<usize>, lay: &Layout, built: &Built, mt: Option<usize>, out: &mut Vec<(String, String)>) {
     out.extend(layout_oracles(key, lay, built, built.real_debug.get(&key), if key.is_none() { mt } else { None }));
